@@ -25,11 +25,11 @@ static const char *KINDN[NKINDS] = { "bits-a8r8g8b8", "bits-r5g6b5", "bits-c8-in
 #define IS_BITS(k) ((k) <= K_C8)
 
 enum { F_XF, F_FIL, F_REP, F_CLIP, F_CSRC, F_CCL, F_AMAP, F_CA, F_ACC, F_DITH, F_DOFF, F_PAL, NFIELDS };
-static const int NVAL[NFIELDS] = { 8, 6, 4, 4, 2, 2, 4, 2, 2, 3, 2, 3 };
+static const int NVAL[NFIELDS] = { 10, 6, 4, 4, 2, 2, 4, 2, 2, 3, 2, 3 };
 static const char *FIELDN[NFIELDS] = { "set_transform", "set_filter", "set_repeat", "set_clip_region", "set_source_clipping", "set_has_client_clip",
                                        "set_alpha_map", "set_component_alpha", "set_accessors", "set_dither", "set_dither_offset", "set_indexed" };
-static const char *VALN[NFIELDS][8] = {
-    { "NULL", "identity", "scale2", "rot90", "translate(.5,.5)", "scale(2,1)", "homogeneous(2,2,2)", "translate(.5,1.5)" },
+static const char *VALN[NFIELDS][10] = {
+    { "NULL", "identity", "scale2", "rot90", "translate(.5,.5)", "scale(2,1)", "homogeneous(2,2,2)", "translate(.5,1.5)", "translate(1,2)", "rot90+translate(.5,0)(= rot90 except for the translation column)" },
     { "nearest", "bilinear", "convolution3x3", "separable", "convolution3x3-B(same header and first row, other later coefficients)", "separable-B(same header and prefix, other last weights)" },
     { "none", "normal", "pad", "reflect" },
     { "none", "r1(region32: 1,1-4,3)", "r2(region16: 0,0-3,2 + 2,2-5,4)", "r3(region32: 0,0-5,1 + 0,1-2,4; same extents and rectangle count as r2)" },
@@ -138,11 +138,13 @@ static void obj_free(obj_t *o)
     free(o->buf); free(o->abuf); memset(o, 0, sizeof *o);
 }
 
-static const int32_t XFM[8][9] = {
+static const int32_t XFM[10][9] = {
     { 0 }, { 0x10000, 0, 0, 0, 0x10000, 0, 0, 0, 0x10000 }, { 0x20000, 0, 0, 0, 0x20000, 0, 0, 0, 0x10000 },
     { 0, -0x10000, LH << 16, 0x10000, 0, 0, 0, 0, 0x10000 }, { 0x10000, 0, 0x8000, 0, 0x10000, 0x8000, 0, 0, 0x10000 },
     { 0x20000, 0, 0, 0, 0x10000, 0, 0, 0, 0x10000 }, { 0x20000, 0, 0, 0, 0x20000, 0, 0, 0, 0x20000 },
     { 0x10000, 0, 0x8000, 0, 0x10000, 0x18000, 0, 0, 0x10000 },      /* differs from translate(.5,.5) in one entry of the second row only */
+    { 0x10000, 0, 0x10000, 0, 0x10000, 0x20000, 0, 0, 0x10000 },     /* integer translation: bilinear reduces to nearest */
+    { 0, -0x10000, (LH << 16) + 0x8000, 0x10000, 0, 0, 0, 0, 0x10000 },   /* rot90 with a fractional translation */
 };
 static const pixman_fixed_t CONV3[11] = { 3 << 16, 3 << 16, 0x1000, 0x2000, 0x1000, 0x2000, 0x4000, 0x2000, 0x1000, 0x2000, 0x1000 };
 static const pixman_fixed_t CONV3B[11] = { 3 << 16, 3 << 16, 0x1000, 0x2000, 0x1000, 0x1000, 0x2000, 0x4000, 0x2000, 0x1000, 0x2000 };   /* same header, same first row */
@@ -328,7 +330,7 @@ static void add_trans(space_t *sp, int f, int nv) { for (int v = 0; v < nv; v++)
 static void make_trans(space_t *sp, int kind)
 {
     sp->ntrans = 0;
-    add_trans(sp, F_XF, 8); add_trans(sp, F_REP, 4);
+    add_trans(sp, F_XF, 10); add_trans(sp, F_REP, 4);
     if (IS_BITS(kind)) {
         add_trans(sp, F_FIL, 6); add_trans(sp, F_CLIP, 4); add_trans(sp, F_CSRC, 2); add_trans(sp, F_CCL, 2); add_trans(sp, F_AMAP, 4); add_trans(sp, F_CA, 2);
         add_trans(sp, F_ACC, 2); add_trans(sp, F_DITH, 3); add_trans(sp, F_DOFF, 2);
